@@ -68,3 +68,205 @@ type(LIB).attribute = _attribute
 @method("seq", "copy", stmt="")
 def _copy(ex, st, base, node, basenode):
     return base
+
+
+# ------------------------------------------------------------------------------------------------------------
+# A minimal DataFrame model: abstract sort Frame with per-column views (DESIGN.md 2.3 "pandas column").
+#   fr_len(F)            number of rows
+#   fr_isbool(F, c)      column c has dtype bool
+#   fr_int(F, c)[i]      integer value of row i of column c   (meaningful when not fr_isbool)
+#   fr_bool(F, c)[i]     boolean value of row i of column c   (meaningful when fr_isbool)
+# F[c] is a python-level column handle; astype / dtype / comparison follow pandas on int and bool columns.
+from .types import TPy, RECORD, TAbs  # noqa: E402
+from .lib import Lib  # noqa: E402
+
+FRAME = TAbs("Frame")
+NDI = TSeq(INT, "nd")
+NDB = TSeq(BOOL, "nd")
+
+
+def FU(ex):
+    return {
+        "len": ex.uf("fr_len", FRAME.sort(), z3.IntSort()),
+        "isbool": ex.uf("fr_isbool", FRAME.sort(), STR.sort(), z3.BoolSort()),
+        "int": ex.uf("fr_int", FRAME.sort(), STR.sort(), NDI.sort()),
+        "bool": ex.uf("fr_bool", FRAME.sort(), STR.sort(), NDB.sort()),
+    }
+
+
+def frame_facts(ex, st, F, c):
+    u = FU(ex)
+    key = ("frame-col", F.z.get_id(), c.z.get_id())
+    if key not in st.seen:
+        st.seen.add(key)
+        ex.assume(st, z3.And(u["len"](F.z) >= 0, NDI.len(u["int"](F.z, c.z)) == u["len"](F.z),
+                             NDB.len(u["bool"](F.z, c.z)) == u["len"](F.z)))
+
+
+def column(ex, st, F, c):
+    frame_facts(ex, st, F, c)
+    return SV(TPy("column"), py={"frame": F, "col": c})
+
+
+def col_as_int(ex, st, colv):
+    u = FU(ex)
+    F, c = colv.py["frame"], colv.py["col"]
+    ib = u["isbool"](F.z, c.z)
+    ia = NDI.arr(u["int"](F.z, c.z))
+    ba = NDB.arr(u["bool"](F.z, c.z))
+    return ex.new_seq(st, INT, u["len"](F.z), lambda j: z3.If(ib, z3.If(ba[j], 1, 0), ia[j]), "nd", "colint")
+
+
+def col_as_bool(ex, st, colv):
+    """pandas astype(bool): bool column unchanged, integer column -> (value != 0)"""
+    u = FU(ex)
+    F, c = colv.py["frame"], colv.py["col"]
+    ib = u["isbool"](F.z, c.z)
+    ia = NDI.arr(u["int"](F.z, c.z))
+    ba = NDB.arr(u["bool"](F.z, c.z))
+    ex.used_lib.add("pandas: Series.astype(bool) of an integer column is (value != 0); of a bool column the column")
+    return ex.new_seq(st, BOOL, u["len"](F.z), lambda j: z3.If(ib, ba[j], ia[j] != 0), "nd", "colbool")
+
+
+_orig_subscript = Lib.subscript
+
+
+def _subscript(self, ex, st, base, idx, node):
+    if base.t == FRAME and idx.t == STR:
+        return column(ex, st, base, idx)
+    return _orig_subscript(self, ex, st, base, idx, node)
+
+
+Lib.subscript = _subscript
+
+_orig_attribute2 = Lib.attribute
+
+
+def _attribute2(self, ex, st, base, attr, node):
+    if isinstance(base.t, TPy) and base.t.what == "column":
+        if attr == "dtype":
+            return SV(TPy("dtype"), py=base.py)
+        if attr == "values":
+            return base
+    return _orig_attribute2(self, ex, st, base, attr, node)
+
+
+Lib.attribute = _attribute2
+
+_orig_compare = Lib.compare
+
+
+def _compare(self, ex, st, op, a, b, node):
+    if isinstance(a.t, TPy) and a.t.what == "dtype" and isinstance(op, ast.Eq):
+        if b.t is FUNC and b.py == ("name", "bool"):
+            u = FU(ex)
+            return u["isbool"](a.py["frame"].z, a.py["col"].z)
+    return _orig_compare(self, ex, st, op, a, b, node)
+
+
+from .types import FUNC  # noqa: E402
+Lib.compare = _compare
+
+
+@method("py:column", "astype", stmt="")
+def _col_astype(ex, st, base, node, basenode):
+    target = ast.unparse(node.args[0])
+    if target == "int":
+        return col_as_int(ex, st, base)
+    if target == "bool":
+        return col_as_bool(ex, st, base)
+    raise Unsupported("column.astype(%s)" % target)
+
+
+_orig_store = Lib.store
+
+
+def _store(self, ex, st, target, val, node):
+    # F[c] = <nd[bool]>  : a new frame whose column c is that boolean column, everything else unchanged
+    if isinstance(target.value, ast.Name) and target.value.id in st.env and st.env[target.value.id].t == FRAME:
+        F = st.env[target.value.id]
+        c = ex.ev(st, target.slice)
+        if c.t == STR and isinstance(val.t, TSeq) and val.t.elem == BOOL:
+            u = FU(ex)
+            ex.oblige(st, "safety.column_len", ex.seq_len(val) == u["len"](F.z), "safety", node,
+                      "assigned column has one value per row")
+            F2 = ex.fresh("frame", FRAME)
+            d = ex.bvar("d", STR.sort())
+            ex.used_lib.add("pandas: df[c] = values replaces column c (dtype of the values), other columns unchanged")
+            ex.assume(st, z3.And(u["len"](F2.z) == u["len"](F.z), u["isbool"](F2.z, c.z),
+                                 ex.seq_eq(SV(NDB, u["bool"](F2.z, c.z)), SV(NDB, val.z))))
+            ex.assume(st, z3.ForAll([d], z3.Implies(d != c.z, z3.And(
+                u["isbool"](F2.z, d) == u["isbool"](F.z, d), u["int"](F2.z, d) == u["int"](F.z, d),
+                u["bool"](F2.z, d) == u["bool"](F.z, d))), patterns=[u["isbool"](F2.z, d)]))
+            st.env[target.value.id] = F2
+            return True
+    return _orig_store(self, ex, st, target, val, node)
+
+
+Lib.store = _store
+
+
+def b_fr_len(self, ex, st, node):
+    F = ex.ev(st, node.args[0])
+    return SV(INT, FU(ex)["len"](F.z))
+
+
+def b_fr_isbool(self, ex, st, node):
+    F, c = ex.ev(st, node.args[0]), ex.ev(st, node.args[1])
+    frame_facts(ex, st, F, c)
+    return SV(BOOL, FU(ex)["isbool"](F.z, c.z))
+
+
+def b_fr_int(self, ex, st, node):
+    F, c = ex.ev(st, node.args[0]), ex.ev(st, node.args[1])
+    frame_facts(ex, st, F, c)
+    return SV(NDI, FU(ex)["int"](F.z, c.z))
+
+
+def b_fr_bool(self, ex, st, node):
+    F, c = ex.ev(st, node.args[0]), ex.ev(st, node.args[1])
+    frame_facts(ex, st, F, c)
+    return SV(NDB, FU(ex)["bool"](F.z, c.z))
+
+
+def b_fr_targets(self, ex, st, node):
+    """spec: fr_targets(F, c)[i] = row i is a target: the bool value of a bool column, (value == 1) otherwise"""
+    F, c = ex.ev(st, node.args[0]), ex.ev(st, node.args[1])
+    frame_facts(ex, st, F, c)
+    u = FU(ex)
+    f = ex.uf("fr_targets", FRAME.sort(), STR.sort(), NDB.sort())
+    r = SV(NDB, f(F.z, c.z))
+    key = ("fr-targets", F.z.get_id(), c.z.get_id())
+    if key not in st.seen:
+        st.seen.add(key)
+        j = ex.bvar("j")
+        ib = u["isbool"](F.z, c.z)
+        ex.assume(st, NDB.len(r.z) == u["len"](F.z))
+        ex.assume(st, z3.ForAll([j], z3.Implies(z3.And(0 <= j, j < u["len"](F.z)),
+                                                NDB.arr(r.z)[j] == z3.If(ib, NDB.arr(u["bool"](F.z, c.z))[j],
+                                                                         NDI.arr(u["int"](F.z, c.z))[j] == 1)),
+                                patterns=[NDB.arr(r.z)[j]]))
+    return r
+
+
+Lib.b_fr_targets = b_fr_targets
+
+for _n, _f in [("fr_len", b_fr_len), ("fr_isbool", b_fr_isbool), ("fr_int", b_fr_int), ("fr_bool", b_fr_bool)]:
+    setattr(Lib, "b_" + _n, _f)
+
+# coercion of a column handle to an array parameter of a callee (what `.values.astype(...)` does there)
+from . import engine as _engine  # noqa: E402
+
+_orig_coerce_decl = _engine.Exec.coerce_decl
+
+
+def _coerce_decl(self, st, val, t):
+    if isinstance(val.t, TPy) and val.t.what == "column" and isinstance(t, TSeq):
+        if t.elem == BOOL:
+            return col_as_bool(self, st, val)
+        if t.elem == INT:
+            return col_as_int(self, st, val)
+    return _orig_coerce_decl(self, st, val, t)
+
+
+_engine.Exec.coerce_decl = _coerce_decl
